@@ -194,6 +194,45 @@ fn c17_case(t: &Target, w: &dyn AnyWriter, idx: u64, all: Bufs, site: &str, l: &
     if let Ok(n) = &size {
         l.nontrivial(fp_combine(fp_debug(t), *n as u64));
     }
+    // the public unchecked writer, handed a buffer of the announced size or larger: whatever number of bytes it
+    // reports, those bytes must not depend on the buffer's previous contents and everything beyond them must be
+    // left alone (the length field follows the buffer by documentation; nothing else may)
+    if let Ok(n) = &size {
+        if all != Bufs::Exact || *n <= 256 {
+            for extra in [0usize, 4, 12] {
+                let cap = *n + extra;
+                let mut a: Vec<u8> = (0..cap).map(pat_a).collect();
+                let mut b: Vec<u8> = (0..cap).map(pat_b).collect();
+                let ra = guard::catch(|| w.write_unchecked(&mut a));
+                let rb = guard::catch(|| w.write_unchecked(&mut b));
+                match (ra, rb) {
+                    (Ok(None), _) | (_, Ok(None)) => break,
+                    (Err(pi), _) | (_, Err(pi)) => {
+                        l.subject_panic(&format!("write-unchecked:{}", site), &pi, || format!("{} into {} bytes (announced {})", t.short(), cap, n));
+                        break;
+                    }
+                    (Ok(Some(ma)), Ok(Some(mb))) => {
+                        l.transitions += 2;
+                        l.validated += 1;
+                        if ma != mb {
+                            l.violation(format!("unchecked-result-depends-on-buffer-contents:{}", site), || t.short(), || format!("buffer {}: {} vs {}", cap, ma, mb));
+                            break;
+                        }
+                        let m = ma.min(cap);
+                        if let Some(i) = (0..m).find(|&i| a[i] != b[i]) {
+                            l.violation(format!("unchecked-claimed-byte-not-written:{}", site), || t.short(), || format!("write_into_unchecked into {} bytes reports {} written, byte {} keeps the buffer's previous content", cap, ma, i));
+                            break;
+                        }
+                        if let Some(i) = (m..cap).find(|&i| a[i] != pat_a(i) || b[i] != pat_b(i)) {
+                            l.violation(format!("unchecked-touches-beyond-written:{}", site), || t.short(), || format!("write_into_unchecked into {} bytes reports {} written, yet byte {} was changed", cap, ma, i));
+                            break;
+                        }
+                        l.hit("unchecked-write-checked");
+                    }
+                }
+            }
+        }
+    }
     for cap in caps {
         let mut a: Vec<u8> = (0..cap).map(pat_a).collect();
         let mut b: Vec<u8> = (0..cap).map(pat_b).collect();
